@@ -37,4 +37,8 @@ CHECKS = {
    technique='exhaustive enumeration of expressions (<=2/3 operators over a,b,c,0,1 x all argument orders) + Hypothesis random expressions depth<=4 over identifier pools + generated non-Boolean programs; oracles = cross-notation equality, print/parse round trip, truth table, exception class',
    text='OBDD(expr, args) and OBDD("lambda args: expr") must be equal (== and same root) and denote the harness-computed truth table for every style (&|~, and/or/not, mixed) and argument order; OBDD(str(o.root), o.ordering) and OBDD(str(o)) must give back o; a missing variable must raise RuntimeError and ~100 kinds of generated non-Boolean programs SyntaxError.',
    note="Trusted: vp/bdd.py truth tables (cross-checked with Python eval). '^' in strings, integral floats and complex zero are in neither class."),
+ 'C16': dict(
+   technique='Hypothesis stateful (rule-based) machines over a pool of OBDDs with explicit drop/gc/hold steps, truth-table model, invariant over the global node table; failing op-logs minimised by delta debugging and replayed by a plain interpreter',
+   text='Random histories of parse / combine / negate / restrict / re-parse / alias / drop / gc.collect / hold-inner-node / re-create steps under two orderings sharing the global unique table; after every step == and root identity must coincide with equality of harness-computed 16-bit truth tables, and a scan of every live node must find no duplicate (var, low, high), no redundant node and one terminal per value.',
+   note='Trusted: vp/bdd.py truth tables. GC interleavings are those reachable with CPython refcounting plus explicit gc.collect() placement; single-threaded.'),
 }
